@@ -483,15 +483,61 @@ func c02Concurrent(c *sim.Case) {
 	c.FP(store, f.name, second, strings.Join(s.trace, " "))
 }
 
+// c02TwoFilters: two OIDC filters with different static key sets behind one assembled service (one shared key
+// provider, as in cmd/main.go). A token signed with filter A's provider key - otherwise perfect for B: B's audience,
+// B's nonce - arrives through B's token endpoint, before or after A has validated tokens of its own. B must verify
+// with ITS configured key set.
+func c02TwoFilters(c *sim.Case) {
+	order := sim.Pick(c, "order", 16) // sharding draw; bit 0: A validates first
+	aFirst := order%2 == 0
+	storeMode := []string{"memory", "redis-dbs"}[(order/2)%2]
+	w := newC18World(c, 2, storeMode, [][2]int{{0, 0}, {0, 0}})
+	defer w.close()
+	if w.svc != nil {
+		c.Class("deployment:service-binary")
+	}
+	A, B := w.fs[0], w.fs[1]
+	if aFirst {
+		if sid := w.login(A, "alice"); sid == "" {
+			c.Violation("login-failed", "honest login through filter %s failed: %s", A.name, w.why)
+		}
+	}
+	keyA := A.idp.SignKey
+	B.idp.Push(&sim.Behaviour{Name: "signed-with-other-filters-key", Mutate: func(p *sim.IdP, honest string, cl map[string]any, _ *sim.TokenCall) string {
+		return sim.HonestToken(keyA.With(p.SignKey.Kid, ""), cl)
+	}})
+	sid, cb := w.start(B, "mallory")
+	if cb == "" {
+		c.Violation("login-failed", "filter %s did not start a login: %s", B.name, w.why)
+	}
+	r := w.check(B, cb, B.cookieName()+"="+sid)
+	B.idp.Next = nil
+	c.Logf("aFirst=%v stores=%s: B's callback answered by a token signed with A's key -> %v", aFirst, storeMode, r)
+	if r.IsRedirect() && !strings.Contains(r.Location(), "/auth") {
+		c.Violation("bound-token-bad-signature:signed-with-other-filters-key", "filter %s bound an ID token signed with the key of %s's provider, which is not in its configured key set", B.name, A.name)
+	}
+	if r2 := w.check(B, "/app", B.cookieName()+"="+sid); r2.OK {
+		c.Violation("bound-token-bad-signature:signed-with-other-filters-key", "filter %s honours a session whose ID token was signed with %s's provider key", B.name, A.name)
+	}
+	// and B's own honest login still works and forwards B's tokens
+	if sidB := w.login(B, "bob"); sidB == "" {
+		c.Violation("login-failed", "honest login through filter %s failed afterwards: %s", B.name, w.why)
+	} else if r3 := w.check(B, "/app", B.cookieName()+"="+sidB); !r3.OK {
+		c.Violation("own-session-not-honoured", "filter %s does not honour its own fresh session: %v", B.name, r3)
+	}
+	c.NonTrivial()
+	c.FP(order)
+}
+
 func TestC02(t *testing.T) {
 	r := sim.NewRun(t, "C02")
 	defer r.Finish()
-	r.Rule = fmt.Sprintf("token-endpoint answers from an adversarial grammar of %d forgery classes (alg none x3, HS256 keyed with the public key as PEM/DER/JWK/empty, foreign key under right/unknown/no kid, kid of another published key, embedded jwk, jku/x5u/x5c, payload edited, signature flipped/truncated/extended/stripped, extra/empty segments, JSON serialisations, garbage; validly signed tokens with absent/foreign/near-miss/array/non-string aud and absent/foreign/empty/near-miss/non-string nonce) on the login and the refresh path, mixed with honest answers, x header/preamble configurations x RSA/EC keys with and without alg among 1-3 published keys. Part 'each': every class x {login, refresh} x store x key kind, exhaustively. Part 'concurrent': two checks on one expired session under the harness-owned scheduler (all interleavings at store-call / token-call / key-lookup granularity) while the refresh is answered with an unacceptable but parseable, unexpired token. Non-trivial = the history served at least one unacceptable token and completed at least one honest exchange; distinct = distinct (config, behaviour tags, step verdicts).", len(forges)+len(typeForges)+len(acceptable))
+	r.Rule = fmt.Sprintf("token-endpoint answers from an adversarial grammar of %d forgery classes (alg none x3, HS256 keyed with the public key as PEM/DER/JWK/empty, foreign key under right/unknown/no kid, kid of another published key, embedded jwk, jku/x5u/x5c, payload edited, signature flipped/truncated/extended/stripped, extra/empty segments, JSON serialisations, garbage; validly signed tokens with absent/foreign/near-miss/array/non-string aud and absent/foreign/empty/near-miss/non-string nonce) on the login and the refresh path, mixed with honest answers, x header/preamble configurations x RSA/EC keys with and without alg among 1-3 published keys. Part 'each': every class x {login, refresh} x store x key kind, exhaustively. Part 'two-filters': two filters with different static key sets behind one assembled service; a token signed with the other filter's provider key arrives through this filter's token endpoint. Part 'concurrent': two checks on one expired session under the harness-owned scheduler (all interleavings at store-call / token-call / key-lookup granularity) while the refresh is answered with an unacceptable but parseable, unexpired token. Non-trivial = the history served at least one unacceptable token and completed at least one honest exchange; distinct = distinct (config, behaviour tags, step verdicts).", len(forges)+len(typeForges)+len(acceptable))
 	r.Assumptions = []string{
 		"the oracle's verifier uses only crypto/* and encoding/json and is lenient (bound => must verify), so it never demands more than the statement",
 		"a panic while handling a forged token counts as 'not bound' here; crashes are C15's",
 	}
-	parts := map[string]func(*sim.Case){"histories": c02Prop, "each": c02Each, "concurrent": c02Concurrent}
+	parts := map[string]func(*sim.Case){"histories": c02Prop, "each": c02Each, "concurrent": c02Concurrent, "two-filters": c02TwoFilters}
 	if r.Replay != "" {
 		r.ReplayFile(parts)
 		return
@@ -499,6 +545,7 @@ func TestC02(t *testing.T) {
 	r.CheckKnown(parts)
 	r.Exhaustive("each", 0, c02Each)
 	r.Exhaustive("concurrent", 0, c02Concurrent)
+	r.Exhaustive("two-filters", 0, c02TwoFilters)
 	r.Rapid("histories", r.N(12000, 200000), c02Prop)
 }
 
